@@ -154,7 +154,20 @@ pub fn c11_component_searches(quick: bool) -> Vec<Search> {
     alpha2.push(TOp::Grow2(7, Sz::S200));
     alpha2.push(TOp::Put2(1, Sz::Three));
     alpha2.push(TOp::Dealloc2);
+    // a cache smaller than one overflow chain: building and releasing a 10-page chain under an 8-page cache
+    let mut alpha3 = vec![];
+    for k in [1u8, 2] {
+        alpha3.push(TOp::Put(k, Sz::Ten));
+        alpha3.push(TOp::Put(k, Sz::Tiny));
+        alpha3.push(TOp::Put(k, Sz::Three));
+        alpha3.push(TOp::Remove(k));
+    }
+    alpha3.push(TOp::Put2(1, Sz::Ten));
+    alpha3.push(TOp::Remove2(1));
+    alpha3.push(TOp::Dealloc2);
+    let small_cache = Cfg { page_size: 4096, cache: 8, pool: 1, min_keys: 3, siblings: 2 };
     vec![
+        bt_search("C11", "8-page cache, 10-page overflow chains: build, shrink, grow, remove, whole-tree dealloc", small_cache, Kind::BigUInt, vec![], alpha3, if quick { 4 } else { 6 }, if quick { 60_000 } else { 3_000_000 }),
         bt_search("C11", "two trees sharing a pager: overflow rows, shrinking/growing updates, removes, whole-tree dealloc (from empty)", cfg(4096, 3, 2), Kind::BigUInt, vec![], alpha, if quick { 4 } else { 6 }, if quick { 150_000 } else { 6_000_000 }),
         bt_search("C11", "multi-level first tree (120 keys of 200 B) + second tree grown and deallocated: runs of inserts/removes, whole-tree dealloc of a multi-level tree", cfg(4096, 3, 2), Kind::BigUInt, vec![TOp::SeedRun(120, Sz::S200, false)], alpha2, if quick { 3 } else { 5 }, if quick { 60_000 } else { 3_000_000 }),
     ]
